@@ -147,11 +147,11 @@ pub struct Tag { pub name: String, pub target: usize, pub annotated: bool }
 pub enum Head { Branch(String), Detached(usize) }
 
 #[derive(Clone, Copy, Debug, PartialEq, Eq, Hash)]
-pub enum WorkTree { Clean, ModifiedTracked, StagedNew, Untracked, IgnoredOnly, ModifiedAndIgnored, DeletedTracked, StagedModification, UntrackedInSubdir, EmptyUntrackedDir, IgnoredDir, StagedDeletion, StagedRename, ModeChange, StagedThenReverted, StagedModWorktreeAsHead, StagedNewThenDeleted }
+pub enum WorkTree { Clean, ModifiedTracked, StagedNew, Untracked, IgnoredOnly, ModifiedAndIgnored, DeletedTracked, StagedModification, UntrackedInSubdir, EmptyUntrackedDir, IgnoredDir, StagedDeletion, StagedRename, ModeChange, StagedThenReverted, StagedModWorktreeAsHead, StagedNewThenDeleted, GitlinkMoved, GitlinkMovedStaged }
 
 impl WorkTree {
     pub fn dirty(self) -> bool { !matches!(self, WorkTree::Clean | WorkTree::IgnoredOnly | WorkTree::EmptyUntrackedDir | WorkTree::IgnoredDir | WorkTree::StagedThenReverted) }
-    pub const ALL: [WorkTree; 17] = [WorkTree::Clean, WorkTree::ModifiedTracked, WorkTree::StagedNew, WorkTree::Untracked, WorkTree::IgnoredOnly, WorkTree::ModifiedAndIgnored, WorkTree::DeletedTracked, WorkTree::StagedModification, WorkTree::UntrackedInSubdir, WorkTree::EmptyUntrackedDir, WorkTree::IgnoredDir, WorkTree::StagedDeletion, WorkTree::StagedRename, WorkTree::ModeChange, WorkTree::StagedThenReverted, WorkTree::StagedModWorktreeAsHead, WorkTree::StagedNewThenDeleted];
+    pub const ALL: [WorkTree; 19] = [WorkTree::Clean, WorkTree::ModifiedTracked, WorkTree::StagedNew, WorkTree::Untracked, WorkTree::IgnoredOnly, WorkTree::ModifiedAndIgnored, WorkTree::DeletedTracked, WorkTree::StagedModification, WorkTree::UntrackedInSubdir, WorkTree::EmptyUntrackedDir, WorkTree::IgnoredDir, WorkTree::StagedDeletion, WorkTree::StagedRename, WorkTree::ModeChange, WorkTree::StagedThenReverted, WorkTree::StagedModWorktreeAsHead, WorkTree::StagedNewThenDeleted, WorkTree::GitlinkMoved, WorkTree::GitlinkMovedStaged];
 }
 
 pub fn git_env() -> Vec<(String, String)> {
@@ -211,7 +211,9 @@ impl Repo {
             // every third commit is empty (tree identical to its first parent, as `git commit --allow-empty`, "ci: trigger"
             // commits or `merge -s ours` produce): it still counts for the distance
             if i % 3 != 2 { s += &format!("M 100644 inline f{i}\ndata {}\n{}\n", msg.len(), msg); }
-            if i == 0 { s += "M 100644 inline .gitignore\ndata 8\nignored*\n"; }
+            // the root commit also records a gitlink (a submodule pointer) `lib`; the directory stays an uninitialised, empty
+            // submodule unless a work-tree state puts a nested repository there
+            if i == 0 { s += "M 100644 inline .gitignore\ndata 8\nignored*\nM 160000 1111111111111111111111111111111111111111 lib\n"; }
             s += "\n";
         }
         for (b, c) in &shape.branches { s += &format!("reset refs/heads/{b}\nfrom :{}\n\n", c + 1); }
@@ -311,6 +313,12 @@ impl Repo {
             WorkTree::StagedDeletion => { git(&self.dir, &["rm", "-q", tracked_file], None); }
             WorkTree::StagedRename => { git(&self.dir, &["mv", tracked_file, "renamed"], None); }
             WorkTree::ModeChange => { use std::os::unix::fs::PermissionsExt; std::fs::set_permissions(p(tracked_file), std::fs::Permissions::from_mode(0o755)).unwrap(); }
+            // the submodule directory holds a repository checked out at another commit than the recorded one ( M lib / M  lib)
+            WorkTree::GitlinkMoved | WorkTree::GitlinkMovedStaged => {
+                git(&p("lib"), &["init", "-q", "-b", "main"], None);
+                git(&p("lib"), &["commit", "-q", "--allow-empty", "-m", "inner"], None);
+                if w == WorkTree::GitlinkMovedStaged { git(&self.dir, &["add", "lib"], None); }
+            }
             // staged change whose work-tree copy has been put back to the committed content (status MM): index != HEAD
             WorkTree::StagedModWorktreeAsHead => { let orig = std::fs::read(p(tracked_file)).unwrap(); std::fs::write(p(tracked_file), "changed").unwrap(); git(&self.dir, &["add", tracked_file], None); std::fs::write(p(tracked_file), orig).unwrap(); }
             // new file staged, then deleted from the work tree (status AD): still a staged change
@@ -324,6 +332,8 @@ impl Repo {
     }
 
     pub fn reset_worktree(&self) {
+        // a nested repository left in the submodule directory survives `reset --hard` and `clean`: remove it first
+        if self.dir.join("lib/.git").exists() { let _ = std::fs::remove_dir_all(self.dir.join("lib")); }
         git(&self.dir, &["reset", "-q", "--hard"], None);
         git(&self.dir, &["clean", "-q", "-f", "-d", "-x"], None);
     }
